@@ -244,7 +244,7 @@ func Scenarios(cfg *common.Config) []issuer.Params {
 	n := cfg.Pick(8, 40)
 	for i := 0; i < n; i++ {
 		p := issuer.Params{NClaims: sizes[i%len(sizes)], OmitZero: i%2 == 0,
-			RootPos: []string{"index", "value"}[i%2], Updatable: i%3 == 0}
+			RootPos: []string{"index", "value"}[i%2], SubjectPos: []string{"index", "value", "none"}[i%3], Updatable: i%3 == 0}
 		// revocation tree: empty in every fourth scenario (so that omitted / explicit zero
 		// roots both occur on honest bundles), else random and clustered nonces
 		emptyRev := i%4 == 0 || i%4 == 3
